@@ -22,50 +22,63 @@ PROPS = {
                 note="Trusted: numpy where/argsort/array/zeros/sum/indexing contracts (DESIGN 3); pyvc encoding (DESIGN 2).",
                 technique="contracts of encode/decode against the integer reference coder + bounded run-time contract checking"),
     "C02": dict(title="Every emitted strand obeys the biochemical constraints", level="other", bounded=["C02"], design="8/C02",
-                proof=["harness.c02_chain", "harness.c02_chain_table", "dsw.spiderweb.find_vertices", "dsw.spiderweb.connect_coding_graph#t234",
-                       "dsw.spiderweb.encode#normal", "dsw.spiderweb.encode#normal-table", "dsw.operation.number_to_dna#int", "dsw.graphized.obtain_latters",
+                proof=["harness.c02_chain", "harness.c02_chain_table", "harness.c02_chain_fast", "harness.c02_chain_fast_table",
+                       "dsw.spiderweb.find_vertices", "dsw.spiderweb.connect_coding_graph#t234",
+                       "dsw.spiderweb.encode#normal", "dsw.spiderweb.encode#normal-table", "dsw.spiderweb.encode#fast", "dsw.spiderweb.encode#fast-table", "dsw.operation.number_to_dna#int", "dsw.graphized.obtain_latters",
                        "dsw.biofilter.LocalBioFilter.__init__#norun-none", "dsw.biofilter.LocalBioFilter.__init__#norun-0", "dsw.biofilter.LocalBioFilter.__init__#norun-1", "dsw.biofilter.LocalBioFilter.__init__#norun-2", "dsw.biofilter.LocalBioFilter.__init__#norun-3", "dsw.biofilter.LocalBioFilter.__init__#run-none", "dsw.biofilter.LocalBioFilter.__init__#run-0", "dsw.biofilter.LocalBioFilter.__init__#run-1", "dsw.biofilter.LocalBioFilter.__init__#run-2", "dsw.biofilter.LocalBioFilter.__init__#run-3",
                        "lemma.window_shift", "lemma.pv_split", "lemma.pv_bound", "lemma.mod_small", "lemma.ipow_mono", "lemma.pv_ext", "lemma.pv_store_frame"],
                 explanation="PROVED as a composition (client harness over contracts only): for an ARBITRARY user-defined window predicate f (uninterpreted "
                             "verdict), every observed length k, thresholds 2..4, every message, every retained start vertex, with and without a shuffle "
-                            "table (normal mode): mask = find_vertices(k, f); (desc, acc) = connect_coding_graph(k, mask, t); s = encode(m, acc, start): "
+                            "table, in normal mode and - on the generated graphs without an out-degree-3 vertex, where it is defined - in fast mode: mask = find_vertices(k, f); (desc, acc) = connect_coding_graph(k, mask, t); s = encode(m, acc, start): "
                             "every window w of kmer(start) + s - including those overlapping the virtual start k-mer - has base-4 value = the vertex "
                             "reached after w steps (window-shift lemma = C13), that vertex is retained, retained => masked => accepted by f.  The "
                             "constructor clause is proved for LocalBioFilter.__init__ (raises ValueError exactly when run > k or a motif is longer than "
                             "k; every accepted configuration is window-decidable) EXCEPT the recorded known finding max_homopolymer_runs == "
-                            "observed_length, which is excluded by an explicit precondition of the contract.  BOUNDED: threshold 1, fast mode, and the "
+                            "observed_length, which is excluded by an explicit precondition of the contract.  BOUNDED: threshold 1 and the "
                             "whole-sequence verdict of the built-in filter (needs the C12 window lemma).",
-                demoted=["threshold 1 - bounded B2 (C03)", "fast mode - bounded B2", "whole-sequence check of LocalBioFilter on the strand - bounded B2 (C12 lemma)"],
-                claim="Mixed: chain deductive for arbitrary filters / k / t in 2..4 / messages / tables (normal mode); constructor clause deductive modulo "
+                demoted=["threshold 1 - bounded B2 (C03)", "whole-sequence check of LocalBioFilter on the strand - bounded B2 (C12 lemma)"],
+                claim="Mixed: chain deductive for arbitrary filters / k / t in 2..4 / messages / tables (both modes); constructor clause deductive modulo "
                       "one known finding; the rest bounded.",
                 note="Trusted: numpy contracts of the closure; the verdict of a user filter is a function of the k-mer only.",
                 technique="chain of contracts (mask <=> filter, arcs inside mask, strand is a walk, k-mer shift lemma) + bounded chain driver"),
     "C03": dict(title="The coding graph is the largest closed subgraph, or a ValueError", level="other", bounded=["C03"], design="8/C03",
-                proof=["dsw.spiderweb.connect_coding_graph#t234", "dsw.graphized.obtain_latters", "lemma.ssum_zero_iff", "lemma.ssum_mono_eq",
-                       "lemma.ipow_mono"],
+                proof=["dsw.spiderweb.connect_coding_graph#t234", "harness.c03_smaller_mask_smaller_graph", "dsw.graphized.obtain_latters", "lemma.ssum_zero_iff",
+                       "lemma.ssum_mono_eq", "lemma.ipow_mono"],
                 explanation="PROVED for thresholds 2, 3, 4 on the real connect_coding_graph (whole function): with an ARBITRARY closed subset S of the "
                             "mask as a universally quantified ghost input, the returned vertex set is inside the mask, closed (every retained vertex "
                             "keeps >= t retained successors), contains S (hence is the greatest closed subset), is non-empty, the accessor is exactly "
                             "its induced graph, the returned description marks exactly the vertices with arcs, ValueError is raised only when every "
                             "closed subset is empty, the trimming loop terminates (variant = number of marked vertices) and the mask parameter is "
-                            "never stored into.  BOUNDED (never counted as proved): the threshold-1 clean-up phase (networkx find_cycle, try/except: "
-                            "outside the engine), monotonicity in the mask and agreement with latter-map trimming (remove_useless).",
+                            "never stored into.  'A smaller mask never yields a larger graph' is a client lemma over that contract (harness.c03_smaller_mask_smaller_graph: "
+                            "the graph of the smaller mask is a closed subset of the larger mask, so the greatest one contains it), thresholds 2..4.  BOUNDED "
+                            "(never counted as proved): the threshold-1 clean-up phase (networkx find_cycle, try/except: outside the engine) and agreement "
+                            "with latter-map trimming (remove_useless).",
                 demoted=["threshold 1: information-free-cycle removal phase (networkx) - bounded B2, all 65,536 order-2 masks in the thorough tier",
-                         "monotonicity and latter-map trimming agreement - bounded B2"],
-                claim="Mixed: thresholds 2..4 deductive for all k >= 1 and all masks (no bound); threshold 1 and the two relational clauses bounded.",
+                         "latter-map trimming agreement (remove_useless) - bounded B2"],
+                claim="Mixed: thresholds 2..4 deductive for all k >= 1 and all masks (no bound) incl. monotonicity in the mask; threshold 1 and trimming agreement bounded.",
                 note="Trusted: numpy zeros/ones/where/sum/fancy-indexing contracts (DESIGN 3). Bounded part: exhaustive order-2 masks only in the thorough tier.",
                 technique="greatest-fixed-point loop contract on connect_coding_graph + exhaustive order-2 run-time contract checking"),
     "C04": dict(title="Encoding is total, dead-end free and tight on generated graphs", level="other", bounded=["C04"], design="8/C04",
-                proof=["dsw.spiderweb.encode#fast", "dsw.spiderweb.encode#fast-table", "dsw.spiderweb.encode#fast-vt", "dsw.spiderweb.encode#fast-table-vt", "dsw.spiderweb.encode#normal", "dsw.spiderweb.encode#normal-table", "dsw.spiderweb.encode#normal-vt", "dsw.spiderweb.encode#normal-table-vt", "dsw.operation.bit_to_number#str", "dsw.operation.number_to_bit#str", "dsw.operation.calculus_division", "dsw.operation.calculus_multiplication", "dsw.operation.calculus_addition", "lemma.pv_positive", "lemma.pv_bound", "lemma.pv_store_frame"],
+                proof=["dsw.spiderweb.encode#fast", "dsw.spiderweb.encode#fast-table", "dsw.spiderweb.encode#fast-vt", "dsw.spiderweb.encode#fast-table-vt", "dsw.spiderweb.encode#normal", "dsw.spiderweb.encode#normal-table", "dsw.spiderweb.encode#normal-vt", "dsw.spiderweb.encode#normal-table-vt", "dsw.operation.bit_to_number#str", "dsw.operation.number_to_bit#str", "dsw.operation.calculus_division", "dsw.operation.calculus_multiplication", "dsw.operation.calculus_addition", "lemma.pv_positive", "lemma.pv_bound", "lemma.pv_store_frame",
+                       "harness.c04_tight_normal", "harness.c04_tight_normal_table", "harness.c04_step_bound_normal", "harness.c04_step_bound_normal_table",
+                       "harness.c04_step_bound_fast", "harness.c04_step_bound_fast_table",
+                       "lemma.mul_mono", "lemma.mul_step", "lemma.ipow_4_2", "lemma.ipow_mono"],
                 explanation="PROVED on the real encode (normal mode) under the well-formedness witness (R closed under arcs, every vertex of R has an arc, a "
                             "rank that decreases along one-arc steps): the loop terminates (lexicographic variant (quotient value, rank of the vertex): a "
                             "branching step divides a positive quotient by d >= 2, a one-arc step lowers the rank), the 'no out-degree' ValueError is "
                             "unreachable, the strand is a walk of the graph.  For thresholds 2..4 generation yields such graphs with rank = 0 (C03 proof: "
                             "closed set).  FAST MODE PROVED: variant (bits left, rank), carried bits total L or L+1 (loc[n] in {L, L+1}), no out-degree error.  "
-                            "BOUNDED: the normal-mode tightness clauses (weight product <= message value, L / ceil(L/2) corollaries) and "
-                            "'generation => well-formed' for threshold 1.",
-                demoted=["normal-mode tightness clauses - bounded B2", "threshold-1 generated graphs are well-formed - bounded B2 (C03)"],
-                claim="Mixed: totality / dead-end freedom / walk clause deductive for both modes, fast-mode carried bits deductive; normal-mode tightness bounded.",
+                            "NORMAL-MODE TIGHTNESS PROVED as client lemmas over encode's postcondition (harness.c04_tight_normal[_table]): the last "
+                            "step is taken at a vertex of out-degree >= 2 (information-carrying), the product of the out-degrees met before the last step "
+                            "is <= the message value (induction weight x quotient <= message value along the quotient chain), hence at most L nucleotides "
+                            "when every reachable vertex has out-degree >= 2 and at most ceil(L/2) when all have 4; STEP BOUND PROVED "
+                            "(harness.c04_step_bound_normal[_table]): with a rank witness below the vertex count nv, len(strand) <= L x nv "
+                            "(potential t + rank <= (branching steps + 1) x nv - 1, and fewer branching steps than bits).  "
+                            "The same bound is proved for fast mode (harness.c04_step_bound_fast[_table]: branching steps consume bits).  "
+                            "BOUNDED: 'generation => well-formed' for threshold 1 (C03).",
+                demoted=["threshold-1 generated graphs are well-formed - bounded B2 (C03)"],
+                claim="Mixed: totality / dead-end freedom / walk clause deductive for both modes, fast-mode carried bits and normal-mode tightness, "
+                      "step bound deductive; the link 'threshold-1 generation yields a well-formed graph' is bounded, so the level stays 'other'.",
                 note="Trusted: as C05.",
                 technique="variant and tightness invariant on encode + bounded run-time contract checking on generated graphs"),
     "C05": dict(title="The strand is the documented mixed-radix walk", level="proof", bounded=["C05"], design="8/C05",
@@ -110,11 +123,39 @@ PROPS = {
                 note="Trusted: numpy array/where/sum/slicing contracts (DESIGN 3), codes_of definition.",
                 technique="postcondition of set_vt against vt_spec + edit lemmas + bounded exhaustive short strands"),
     "C08": dict(title="Repair recovers the original strand for separated interior edits", level="other", bounded=["C08"], design="8/C08",
-                explanation="End-to-end repair claim, bounded only (DESIGN 8/C08).",
-                technique="bounded run-time contract checking (every single edit per walk) ; path_matching helper contract"),
-    "C09": dict(title="Repair leaves clean strands alone; candidates check-consistent", level="other", bounded=["C09"], design="8/C09",
-                explanation="repair_dna on clean strands and candidate-list shape.",
-                technique="loop invariant of the scan loop + check filter on both exits + bounded run-time contract checking"),
+                proof=["dsw.spiderweb.repair_dna#detect", "dsw.operation.dna_to_number#int", "lemma.walk_dead", "lemma.pv_bound", "lemma.ipow_mono"],
+                explanation="PROVED (partial contract on the real repair_dna, ending with its scan loop): for EVERY A/C/G/T strand at least one window long, every "
+                            "coding graph and start vertex, the scan loop's error counter leaves 0 exactly when the strand is not a walk of the graph from the "
+                            "start vertex (invariant: counter 0 => the current vertex is the walk's; counter > 0 => the whole strand is not a walk, by the "
+                            "dead-prefix lemma) - the detection sentence of the property, for any number of edits.  BOUNDED ONLY: the end-to-end recovery claim "
+                            "(the original walk is among the candidates when detected errors = edits, also with its check supplied; substitutions with indel "
+                            "handling off): a whole-protocol argument across the scan loop, the look-back window and path_matching that this prover does not "
+                            "carry (DESIGN 8/C08); path_matching itself (lists of nested tuples built through filter / lambda) is not under contract.",
+                demoted=["recovery of the original walk (membership in the candidate list) - bounded B2", "path_matching - bounded B2 (through repair_dna)",
+                         "the reported statistic is 0 on the fall-back exit even when the scan loop detected errors - bounded B2 observes the returned value"],
+                claim="Mixed: the detection clause is deductive at the scan loop; recovery is bounded (every single edit per walk, seeded separated edit sets).",
+                note="Trusted: numpy where / list-comprehension-over-indices contracts as C06; the three bookkeeping lists of the scan loop are opaque.",
+                technique="scan-loop invariant (detected <=> not a walk) + bounded run-time contract checking (every single edit per walk)"),
+    "C09": dict(title="Repair leaves clean strands alone; candidates check-consistent", level="proof", bounded=["C09"], design="8/C09",
+                proof=["dsw.spiderweb.repair_dna#clean", "dsw.spiderweb.repair_dna#clean-vt", "dsw.spiderweb.repair_dna#candidates",
+                       "dsw.spiderweb.repair_dna#candidates-vt", "dsw.spiderweb.set_vt", "dsw.operation.number_to_dna#int", "dsw.operation.dna_to_number#int",
+                       "lemma.walk_dead", "lemma.pv_inj", "lemma.pv_ext", "lemma.pv_bound", "lemma.ipow_mono", "lemma.pv_store_frame"],
+                explanation="CLAUSE 1 PROVED on the WHOLE real repair_dna (contracts #clean / #clean-vt): for every coding graph, start vertex, indel switch, heap "
+                            "limit and every strand at least one window long that is a walk from the start vertex (recursive spec walkv), the scan loop never "
+                            "leaves its first branch (invariant: the current vertex is the walk's, one segment equal to the prefix read, no marker, zero "
+                            "detected errors), the look-back and path-matching loops run zero times, the candidate product is the single empty combination, "
+                            "and the call returns exactly [strand] - or [] when a supplied check (length >= 1) is not the documented check of the strand "
+                            "(uniqueness of the check proved at the comparison) - with first statistic 0, on both exits (heap limit below 1 included); no "
+                            "exception can escape.  CLAUSE 2 PROVED for ANY input (contracts #candidates / #candidates-vt, partial: execution starts at the "
+                            "candidate product with the results of the earlier phases as arbitrary values, the three remaining loops run over arbitrary "
+                            "collections): every `repaired_results.add(x)` carries the obligation 'no check, or check == set_vt(x, len(check))' (element "
+                            "invariant of the set), the fall-back exit returns [strand] only under the same test, and every returned list is "
+                            "sorted(list(set)) or a literal list of at most one element - hence sorted, duplicate-free and check-consistent.",
+                claim="Deductive for both clauses. Clause 2 is proved under an abstraction that only forgets information (arbitrary earlier results).",
+                note="Trusted: sorted(list(set of strings)) returns the same strings strictly increasing; itertools.product of no iterables yields one empty tuple; "
+                     "heap_size is an integer (the default 1e3 is a float: comparisons only); numpy contracts as C05/C06.",
+                technique="whole-function contract on the clean-strand path + element invariant on the candidate set (partial contract from the product phase) "
+                          "+ bounded run-time contract checking"),
     "C10": dict(title="Repair always returns", level="other", bounded=["C10"], design="8/C10",
                 proof=["dsw.spiderweb.repair_dna#scan", "dsw.operation.dna_to_number#int", "lemma.pv_bound", "lemma.ipow_mono"],
                 explanation="PROVED (partial contract on the real repair_dna, ending with its scan loop): for every A/C/G/T strand at least one window long, "
@@ -240,7 +281,21 @@ PROPS = {
                 technique="finite digit-map bijection lemma + permutation-row loop invariant; seeded determinism assumed, bounded spot check",
                 assumptions=["numpy's seeded global generator is deterministic (external)"]),
     "C19": dict(title="Arc removal keeps both graph views in step", level="other", bounded=["C19"], design="8/C19",
-                explanation="remove_nasty_arc per-call contract.",
+                proof=["dsw.spiderweb.remove_nasty_arc", "dsw.graphized.obtain_vertices", "lemma.shift_append", "lemma.mod_small", "lemma.ipow_mono"],
+                explanation="PROVED per call on the real remove_nasty_arc, for every order k <= 31, every accessor and every latter map describing the same graph "
+                            "(the representation invariant lm_of(latter_map, accessor, k), which accessor_to_latter_map establishes - C14): if the call returns, "
+                            "(1) exactly one accessor entry changed, it held an arc former -> latter (>= 0) and now holds -1, and that arc is the one reported; "
+                            "(2) no other entry changed; (3) its score is the maximum of the score table computed on the graph before the call (the table is the "
+                            "callee's result: max / where / unique / intersect1d / argmax contracts); (4) the latter map lost exactly that successor and the key "
+                            "when its list became empty: lm_of holds again on the handed-back pair - so the invariant is inductive and holds after every call "
+                            "of every history.  ASSUMED (bounded tier only): calculate_intersection_score returns a fresh non-negative table of the accessor's "
+                            "shape and modifies nothing; 'scores positive only on arcs' and the scoring scheme itself.  NOT COVERED by the proof: exceptions raised "
+                            "by the statistics computed after the update (reshape / Counter / argsort; those statements are opaque), which end the history.",
+                demoted=["intersection scores positive only on existing arcs / accessor's shape (calculate_intersection_score) - bounded B2",
+                         "exceptions of the post-update statistics - bounded B2"],
+                claim="Mixed: the per-call effect of arc removal and the two-view invariant are deductive (all graphs, k <= 31); the score table itself is an "
+                      "assumed callee contract checked in the bounded tier.",
+                note="Trusted: numpy max/where(2-D)/unique/intersect1d/argmax/log contracts (conformance-checked in the thorough tier), dict model.",
                 technique="per-call contract with representation invariant consistent(accessor, latter_map) + bounded removal sequences"),
     "C20": dict(title="Library calls are stateless and never modify their arguments", level="other", bounded=["C20"], design="8/C20",
                 proof=["frame:*", "dsw.spiderweb.create_random_shuffles#seed", "lemma.ipow_mono"],
